@@ -287,11 +287,11 @@ def run(ctx):
         d.set_mode(stmts)
         text = d.s.impl.display.mode.is_text_mode
         frame(d, rng, text)
-        content(d, rng, text, ctx.pick(5, 20))
+        content(d, rng, text, ctx.pick(2, 20))
         if d.s.impl.display.mode.num_pages > 1:
             d.draw('SCREEN ,,1,0')
             frame(d, rng, text)
-            content(d, rng, text, ctx.pick(3, 10))
+            content(d, rng, text, ctx.pick(1, 10))
             d.draw('SCREEN ,,0,0')
         random_ops(d, rng, nops, text)
     d.close()
